@@ -5,10 +5,9 @@ use crate::lm_ots::parameters::{LmotsAlgorithm, LmotsParameter};
 use crate::lms::helper::get_tree_element;
 use crate::lms::parameters::LmsAlgorithm;
 use crate::lms::MutableExpandedAuxData;
-use crate::util::helper::read_and_advance;
+use crate::util::helper::{try_read_and_advance, try_read_u32_and_advance};
 use crate::{lm_ots, Seed};
 
-use core::convert::TryInto;
 use tinyvec::ArrayVec;
 use zeroize::{Zeroize, ZeroizeOnDrop};
 
@@ -122,18 +121,12 @@ impl<'a, H: HashChain> InMemoryLmsPublicKey<'a, H> {
         // Parsing like desribed in 5.4.2
         let mut data_index = 0;
 
-        let lms_parameter = LmsAlgorithm::get_from_type(u32::from_be_bytes(
-            read_and_advance(data, 4, &mut data_index)
-                .try_into()
-                .unwrap(),
-        ))?;
-        let lmots_parameter = LmotsAlgorithm::get_from_type(u32::from_be_bytes(
-            read_and_advance(data, 4, &mut data_index)
-                .try_into()
-                .unwrap(),
-        ))?;
-        let lms_tree_identifier = read_and_advance(data, 16, &mut data_index);
-        let key = read_and_advance(data, H::OUTPUT_SIZE.into(), &mut data_index);
+        let lms_parameter =
+            LmsAlgorithm::get_from_type(try_read_u32_and_advance(data, &mut data_index)?)?;
+        let lmots_parameter =
+            LmotsAlgorithm::get_from_type(try_read_u32_and_advance(data, &mut data_index)?)?;
+        let lms_tree_identifier = try_read_and_advance(data, 16, &mut data_index)?;
+        let key = try_read_and_advance(data, H::OUTPUT_SIZE.into(), &mut data_index)?;
 
         Some(Self {
             lmots_parameter,
